@@ -141,6 +141,19 @@ def run(ctx):
     ctx.floor("R-C06-1", "name_lookups", n_names, 1)
 
     rule3(ctx, prog, flows, root, kcalls)
+    # R-C06-4: the value is (r-1)/sum, times (r-1)/(n-1): a quotient of counts and distances.  Nothing in the
+    # definition limits or rounds it -- with weights below 1 it exceeds 1
+    ctx.rule("R-C06-4", "the closeness formula applies no limiting or rounding operation (min / max / clamp / round ..) to the quotient")
+    gnc = prog.find("closeness::get_node_centrality")
+    fb = gnc[0] if gnc else root
+    sl4 = flows.slice(fb.path, [L(0)], up=False, down=True, data_only=True)
+    lim = set()
+    for (bp4, nd4) in sl4:
+        if nd4[0] == "CALL":
+            t4 = prog.bodies[bp4].blocks[nd4[1]].term
+            if t4.callee and t4.callee.short.split("::")[-1] in ("min", "max", "clamp", "round", "floor", "ceil", "trunc", "abs", "signum", "fract", "rem_euclid", "powi", "powf", "sqrt", "ln", "exp", "to_int_unchecked", "saturating_sub", "saturating_add") and ("f64" in t4.callee.short or "f32" in t4.callee.short or t4.dest.ty in ("f64", "f32")):
+                lim.add(t4.callee.short.split("::")[-1])
+    ctx.require(not lim, "R-C06-4", "no-limit|" + fb.short.split("::")[-1], "%s computes the quotient with arithmetic only" % fb.short.split("::")[-1], "%s passes the closeness value through %s: the definition (r-1)/sum of distances is not bounded by 1 (weights below 1) and is not rounded" % (fb.short.split("::")[-1], sorted(lim)), loc_str(fb.span))
     ctx.rule("R-C06-2", "the result depends on weighted, wf_improved and the kernels")
     sl = set()
     for (bb, w, s) in ok_producers(root) or []:
